@@ -1464,4 +1464,605 @@ theorem secOutcome_rep (c : Cls) (tr : List Trans) (st : IStream) (img : Bytes) 
     sec64_load_data_size_gt, sec64_load_data_sizet, g.1, g.2.1, g.2.2, hty, hir]
   cases c <;> simp
 
+/-- every range `load_data` would read for `b` is represented in the container -/
+def SecRep (cont : Bytes) (tr : List Trans) (img : Bytes) (b : SecBuf) : Prop :=
+  isNullOrNobitsTy b.stype = false → RangeRep cont tr img b.offset.toNat b.size.toNat
+
+theorem secGetData_rep (c : Cls) (tr : List Trans) (img : Bytes) (ls : LoadSt) (b : SecBuf)
+    (hl : b.isLoaded = false) (hcl : b.canLoad = true) (hnd : b.data = none)
+    (hss : b.streamSize = ssOf tr ls.st.data.length)
+    (h63c : ls.st.data.length < 9223372036854775808) (h63i : img.length < 9223372036854775808)
+    (hin : SecRep ls.st.data tr img b) :
+    (∃ L : Bool, (secGetData c tr ls b).2 =
+      { b with data := (secData img b).1, dataSize := (secData img b).2,
+               isLoaded := L, canLoad := L } ∧ (isNullOrNobitsTy b.stype = false → L = true)) ∧
+    (secGetData c tr ls b).1.st.eof = ls.st.eof ∧ (secGetData c tr ls b).1.st.fail = ls.st.fail := by
+  rw [secGetData_snd, secGetData_st]
+  simp only [hl, hcl, Bool.not_false, Bool.and_self, if_true, hnd, hss, Option.isNone_none, Bool.true_and]
+  cases hty : isNullOrNobitsTy b.stype
+  · have hi := hin hty
+    have hO := secOutcome_rep c tr ls.st img b.stype b.size b.offset h63c h63i hty hi
+    have hir := (isolatedRead_rep tr ls.st img b.offset b.size h63c h63i hi).1
+    by_cases hz : b.size = 0
+    · simp only [hz, if_true] at hO
+      simp only [hO, secGetApply, SecOutcome.apply, SecOutcome.reads, secData, hty, hz, Bool.false_eq_true,
+        if_false, if_true]
+      refine ⟨⟨true, ?_, fun _ => rfl⟩, by first | trivial | exact ⟨rfl, rfl⟩ | simp⟩
+      cases b; simp_all
+    · simp only [hz, if_false] at hO
+      simp only [hO, secGetApply, SecOutcome.apply, SecOutcome.reads, secData, hty, hz, Bool.false_eq_true,
+        if_false, if_true, hir]
+      refine ⟨⟨true, ?_, fun _ => rfl⟩, by first | trivial | exact ⟨rfl, rfl⟩ | simp⟩
+      cases b; simp_all
+  · rcases secOutcome_nobits c tr ls.st b.stype b.size b.offset (ssOf tr ls.st.data.length) hty with h | h
+    · simp only [h, secGetApply, SecOutcome.apply, SecOutcome.reads, secData, hty, if_true, Bool.false_eq_true,
+        if_false]
+      refine ⟨⟨false, ?_, fun h => by simp at h⟩, by first | trivial | exact ⟨rfl, rfl⟩ | simp⟩
+      cases b; simp_all
+    · simp only [h, secGetApply, SecOutcome.apply, SecOutcome.reads, secData, hty, if_true, Bool.false_eq_true,
+        if_false]
+      refine ⟨⟨true, ?_, fun _ => rfl⟩, by first | trivial | exact ⟨rfl, rfl⟩ | simp⟩
+      cases b; simp_all
+
+/-- the header record as decoded through a translation table: the plain record with the two
+    bookkeeping fields the translator influences -/
+def secHdrT (c : Cls) (enc : Enc) (tr : List Trans) (clen : Nat) (img : Bytes) (k : Nat) (isLazy : Bool)
+    (idx : Nat) : SecBuf :=
+  { secHdr c enc img k isLazy idx with streamSize := ssOf tr clen, translatorEmpty := tr.isEmpty }
+
+theorem decodeShdr_T (c : Cls) (enc : Enc) (tr : List Trans) (clen : Nat) (img : Bytes) (k : Nat)
+    (isLazy : Bool) (idx : Nat) :
+    decodeShdr c enc (slice img k (shdrSize c)) (secInit c (ssOf tr clen) tr.isEmpty isLazy idx) =
+      secHdrT c enc tr clen img k isLazy idx := by
+  cases c <;> rfl
+
+/-- section `idx` of image `img` as loaded from a container through `tr` -/
+def SecStT (c : Cls) (enc : Enc) (tr : List Trans) (clen : Nat) (img : Bytes) (k : Nat) (isLazy : Bool)
+    (idx : Nat) (res : Bool) (nm : Bytes) (b : SecBuf) : Prop :=
+  ∃ (fd : Option Bytes) (L : Bool),
+    b = { secHdrT c enc tr clen img k isLazy idx with
+            addrSet := true, fileData := fd, name := nm, canLoad := !res || L, isLoaded := res && L,
+            data := if res then (secData img (secHdr c enc img k isLazy idx)).1 else none,
+            dataSize := if res then (secData img (secHdr c enc img k isLazy idx)).2 else 0 } ∧
+    (isNullOrNobitsTy (secHdr c enc img k isLazy idx).stype = false → L = true)
+
+theorem secData_T (c : Cls) (enc : Enc) (tr : List Trans) (clen : Nat) (img : Bytes) (k : Nat)
+    (isLazy : Bool) (idx : Nat) (fd : Option Bytes) :
+    secData img { secHdrT c enc tr clen img k isLazy idx with fileData := fd } =
+      secData img (secHdr c enc img k isLazy idx) := rfl
+
+/-- **`section_impl::load` through a translation table** -/
+theorem secLoad_rep (c : Cls) (enc : Enc) (tr : List Trans) (img : Bytes) (ls : LoadSt) (k : Nat)
+    (isLazy : Bool) (idx : Nat) (he : ls.st.eof = false) (hf : ls.st.fail = false)
+    (h63c : ls.st.data.length < 9223372036854775808) (h63i : img.length < 9223372036854775808)
+    (hk : RangeRep ls.st.data tr img k (shdrSize c))
+    (hin : SecRep ls.st.data tr img (secHdr c enc img k isLazy idx)) :
+    SecStT c enc tr ls.st.data.length img k isLazy idx (!isLazy) []
+      (secLoad c enc tr ls (Int.ofNat k) isLazy idx).2 ∧
+    (secLoad c enc tr ls (Int.ofNat k) isLazy idx).1.st.eof = false ∧
+    (secLoad c enc tr ls (Int.ofNat k) isLazy idx).1.st.fail = false ∧
+    (secLoad c enc tr ls (Int.ofNat k) isLazy idx).1.st.data = ls.st.data ∧
+    (secLoad c enc tr ls (Int.ofNat k) isLazy idx).1.st.kind = ls.st.kind := by
+  rw [secLoad_eq, hdrRead_rep tr ls.st he hf img k (shdrSize c) hk]
+  simp only [bne_self_eq_false, Bool.false_eq_true, if_false, decodeShdr_T]
+  cases isLazy
+  · simp only [Bool.false_eq_true, if_false]
+    generalize fileDataOf c tr _ _ = fd
+    have hg := secGetData_rep c tr img
+      { ls with st := { ls.st with pos := (trApply tr (Int.ofNat k)).toNat + shdrSize c, gcount := shdrSize c } }
+      { secHdrT c enc tr ls.st.data.length img k false idx with fileData := fd }
+      (by simp [secHdrT, secHdr, secInit]) (by simp [secHdrT, secHdr, secInit]) (by simp [secHdrT, secHdr, secInit])
+      (by simp [secHdrT]) h63c h63i hin
+    obtain ⟨⟨L, h1, h2⟩, h3, h4⟩ := hg
+    refine ⟨⟨fd, L, ?_, h2⟩, ?_, ?_, ?_, ?_⟩
+    · rw [h1, secData_T]
+      simp [secData, secHdrT, secHdr, secInit]
+    · rw [h3]; exact he
+    · rw [h4]; exact hf
+    · simp
+    · simp
+  · simp only [if_true]
+    generalize fileDataOf c tr _ _ = fd
+    refine ⟨⟨fd, true, ?_, fun _ => rfl⟩, by simp [he, hf]⟩
+    simp [secHdrT, secHdr, secInit]
+
+/-- `get_data()` in any such state, on any stream over the container -/
+theorem secGetData_SecStT (c : Cls) (enc : Enc) (tr : List Trans) (cont img : Bytes) (k : Nat) (isLazy : Bool)
+    (idx : Nat) (res : Bool) (nm : Bytes) (b : SecBuf) (ls : LoadSt) (hd : ls.st.data = cont)
+    (h63c : cont.length < 9223372036854775808) (h63i : img.length < 9223372036854775808)
+    (hin : SecRep cont tr img (secHdr c enc img k isLazy idx))
+    (hb : SecStT c enc tr cont.length img k isLazy idx res nm b) :
+    SecStT c enc tr cont.length img k isLazy idx true nm (secGetData c tr ls b).2 ∧
+    (secGetData c tr ls b).1.st.eof = ls.st.eof ∧ (secGetData c tr ls b).1.st.fail = ls.st.fail ∧
+    (res = true → secGetData c tr ls b = (ls, b)) := by
+  obtain ⟨fd, L, hb, hL⟩ := hb
+  subst hd
+  cases res
+  · have hg := secGetData_rep c tr img ls b (by rw [hb]; rfl) (by rw [hb]; rfl) (by rw [hb]; rfl)
+      (by rw [hb]; rfl) h63c h63i (by rw [hb]; exact hin)
+    obtain ⟨⟨L', h1, h2⟩, h3⟩ := hg
+    refine ⟨⟨fd, L', ?_, ?_⟩, h3.1, h3.2, by simp⟩
+    · have hz : (secHdr c enc img k isLazy idx).dataSize = 0 := by simp [secHdr, secInit]
+      rw [h1, hb]; simp [secData, hz, secHdrT]
+    · intro h; apply h2; rw [hb]; exact h
+  · have hno : secGetData c tr ls b = (ls, b) := by
+      rw [secGetData_eq, hb]; cases L <;> simp
+    rw [hno]
+    exact ⟨⟨fd, L, hb, hL⟩, rfl, rfl, fun _ => rfl⟩
+
+/-- the section loop through a translation table -/
+theorem loadSectionsLoop_rep (c : Cls) (enc : Enc) (tr : List Trans) (isLazy : Bool) (shoff entsize : Nat)
+    (cont img : Bytes) (h63c : cont.length < 9223372036854775808) (h63i : img.length < 9223372036854775808) :
+    ∀ (n i : Nat) (ls : LoadSt) (acc : List SecBuf),
+      ls.st.data = cont → ls.st.eof = false → ls.st.fail = false →
+      (∀ j, i ≤ j → j < i + n → RangeRep cont tr img (shoff + j * entsize) (shdrSize c) ∧
+        SecRep cont tr img (secHdr c enc img (shoff + j * entsize) isLazy j)) →
+      let r := loadSectionsLoop c enc tr isLazy (Int.ofNat shoff) entsize n i ls acc
+      r.1.st.data = cont ∧ r.1.st.eof = false ∧ r.1.st.fail = false ∧ r.1.st.kind = ls.st.kind ∧
+      ∃ l : List SecBuf, r.2 = acc.reverse ++ l ∧ l.length = n ∧
+        ∀ j (h : j < l.length),
+          SecStT c enc tr cont.length img (shoff + (i + j) * entsize) isLazy (i + j) (!isLazy) [] l[j] := by
+  intro n
+  induction n with
+  | zero =>
+    intro i ls acc hd he hf _
+    exact ⟨hd, he, hf, rfl, [], by simp [loadSectionsLoop], rfl, fun j h => absurd h (by simp)⟩
+  | succ n ih =>
+    intro i ls acc hd he hf hall
+    have hi := hall i (Nat.le_refl _) (by omega)
+    subst hd
+    have h1 := secLoad_rep c enc tr img ls (shoff + i * entsize) isLazy i he hf h63c h63i hi.1 hi.2
+    obtain ⟨hs, he', hf', hd', hk'⟩ := h1
+    simp only [loadSectionsLoop, ofNat_add_mul]
+    have h2 := ih (i + 1) (secLoad c enc tr ls (Int.ofNat (shoff + i * entsize)) isLazy i).1
+      ((secLoad c enc tr ls (Int.ofNat (shoff + i * entsize)) isLazy i).2 :: acc) hd' he' hf'
+      (fun j h1 h2 => hall j (by omega) (by omega))
+    obtain ⟨g1, g2, g3, g4, l, g5, g6, g7⟩ := h2
+    refine ⟨g1, g2, g3, by rw [g4, hk'], (secLoad c enc tr ls (Int.ofNat (shoff + i * entsize)) isLazy i).2 :: l,
+      ?_, by simp [g6], ?_⟩
+    · rw [g5]; simp
+    · intro j h
+      cases j with
+      | zero => simpa using hs
+      | succ j =>
+        have := g7 j (by simpa using h)
+        simpa [Nat.add_assoc, Nat.add_comm 1 j] using this
+
+theorem SecStT_withName (c : Cls) (enc : Enc) (tr : List Trans) (clen : Nat) (img : Bytes) (k : Nat)
+    (isLazy : Bool) (idx : Nat) (res : Bool) (T : Bytes) (b : SecBuf)
+    (h : SecStT c enc tr clen img k isLazy idx res [] b) :
+    SecStT c enc tr clen img k isLazy idx res
+      ((Spec.cstrAt T (secHdr c enc img k isLazy idx).nameOff.toNat).getD []) (withName T b) := by
+  obtain ⟨fd, L, hb, hL⟩ := h
+  refine ⟨fd, L, ?_, hL⟩
+  have hn : b.nameOff = (secHdr c enc img k isLazy idx).nameOff := by rw [hb]; rfl
+  unfold withName
+  rw [hn]
+  cases Spec.cstrAt T (secHdr c enc img k isLazy idx).nameOff.toNat with
+  | none => simpa using hb
+  | some s => rw [hb]; simp [secHdrT]
+
+theorem loadNames_rep (c : Cls) (enc : Enc) (tr : List Trans) (isLazy : Bool) (hdr : Bytes) (cont img : Bytes)
+    (ls : LoadSt) (secs : List SecBuf) (shoff entsize : Nat)
+    (hd : ls.st.data = cont) (h63c : cont.length < 9223372036854775808)
+    (h63i : img.length < 9223372036854775808)
+    (hbad : load_sections_entsize_bad (Hdr.e_shnum c enc hdr) (Hdr.ident hdr EI_CLASS) (Hdr.e_shentsize c enc hdr) = false)
+    (hndx : (Hdr.e_shstrndx c enc hdr).toNat = 0 ∨ (Hdr.e_shstrndx c enc hdr).toNat < secs.length)
+    (hin : ∀ j, j < secs.length → SecRep cont tr img (secHdr c enc img (shoff + j * entsize) isLazy j))
+    (hsecs : ∀ j (h : j < secs.length),
+      SecStT c enc tr cont.length img (shoff + j * entsize) isLazy j (!isLazy) [] secs[j]) :
+    ∃ (ls' : LoadSt) (secs' : List SecBuf),
+      loadNames c enc tr hdr ls secs = .ok (ls', secs') ∧
+      ls'.st.data = cont ∧ ls'.st.eof = ls.st.eof ∧ ls'.st.fail = ls.st.fail ∧ ls'.st.kind = ls.st.kind ∧
+      secs'.length = secs.length ∧
+      ∀ j (h : j < secs'.length), ∃ res : Bool,
+        SecStT c enc tr cont.length img (shoff + j * entsize) isLazy j res
+          (nameOf (strtabOf c enc img shoff entsize isLazy (Hdr.e_shstrndx c enc hdr).toNat)
+            (secHdr c enc img (shoff + j * entsize) isLazy j).nameOff.toNat) secs'[j] ∧
+        (isLazy = false → res = true) := by
+  unfold loadNames
+  simp only [hbad, Bool.false_eq_true, if_false]
+  by_cases hz : (Hdr.e_shstrndx c enc hdr).toNat = 0
+  · have hz' : (Hdr.e_shstrndx c enc hdr == BitVec.ofNat 16 SHN_UNDEF) = true := by
+      have : Hdr.e_shstrndx c enc hdr = 0#16 := BitVec.eq_of_toNat_eq (by simpa using hz)
+      rw [this]; decide
+    simp only [hz', if_true]
+    refine ⟨ls, secs, rfl, hd, rfl, rfl, rfl, rfl, ?_⟩
+    intro j h
+    refine ⟨!isLazy, ?_, by intro h; simp [h]⟩
+    simpa [strtabOf, hz, nameOf] using hsecs j h
+  · have hz' : (Hdr.e_shstrndx c enc hdr == BitVec.ofNat 16 SHN_UNDEF) = false := by
+      apply Bool.eq_false_iff.mpr
+      intro h
+      have := eq_of_beq h
+      apply hz; rw [this]; decide
+    have hlt : (Hdr.e_shstrndx c enc hdr).toNat < secs.length := by
+      rcases hndx with h | h
+      · exact absurd h hz
+      · exact h
+    simp only [hz', Bool.false_eq_true, if_false, List.getElem?_eq_getElem hlt]
+    generalize hN : (Hdr.e_shstrndx c enc hdr).toNat = N at *
+    have hst := hsecs N hlt
+    have hg := secGetData_SecStT c enc tr cont img (shoff + N * entsize) isLazy N (!isLazy) [] secs[N] ls hd
+      h63c h63i (hin N hlt) hst
+    obtain ⟨hS, hE, hF, _⟩ := hg
+    have hstr : ∀ x, getString (secGetData c tr ls secs[N]).2 x =
+        .ok (Spec.cstrAt (secBytes img (secHdr c enc img (shoff + N * entsize) isLazy N)) x.toNat) := by
+      intro x
+      obtain ⟨fd, L, hb, _⟩ := hS
+      apply getString_resident img _ (secHdr c enc img (shoff + N * entsize) isLazy N) x
+      · rw [hb]; simp
+      · rw [hb]; rfl
+      · intro hty; exact (hin N hlt hty).2.2.1
+    rw [resolveNames_eq _ _ hstr]
+    refine ⟨_, _, rfl, by simp [hd], hE, hF, by simp, by simp, ?_⟩
+    intro j h
+    have hj : j < secs.length := by simpa using h
+    simp only [List.getElem_map, List.getElem_set]
+    have hT : strtabOf c enc img shoff entsize isLazy N =
+        some (secBytes img (secHdr c enc img (shoff + N * entsize) isLazy N)) := by
+      simp [strtabOf, hz]
+    rw [hT]
+    simp only [nameOf]
+    by_cases hjn : N = j
+    · subst hjn
+      simp only [if_true]
+      exact ⟨true, SecStT_withName _ _ _ _ _ _ _ _ _ _ _ hS, fun _ => rfl⟩
+    · simp only [hjn, if_false]
+      exact ⟨!isLazy, SecStT_withName _ _ _ _ _ _ _ _ _ _ _ (hsecs j hj), by intro h; simp [h]⟩
+
+/-! ### segments through a translation table -/
+
+def segHdrT (c : Cls) (enc : Enc) (tr : List Trans) (clen : Nat) (img : Bytes) (k : Nat) (isLazy : Bool) : Seg :=
+  { segHdr c enc img k isLazy with streamSize := ssOf tr clen }
+
+theorem decodePhdr_T (c : Cls) (enc : Enc) (tr : List Trans) (clen : Nat) (img : Bytes) (k : Nat) (isLazy : Bool) :
+    decodePhdr c enc (slice img k (phdrSize c)) (segInit (ssOf tr clen) isLazy) = segHdrT c enc tr clen img k isLazy := by
+  cases c <;> rfl
+
+def SegRep (cont : Bytes) (tr : List Trans) (img : Bytes) (g : Seg) : Prop :=
+  segSkip g = false → RangeRep cont tr img g.offset.toNat g.filesz.toNat
+
+theorem segReadSt_rep (tr : List Trans) (st : IStream) (img : Bytes) (offset size : BitVec 64)
+    (h63c : st.data.length < 9223372036854775808) (h63i : img.length < 9223372036854775808)
+    (hrep : RangeRep st.data tr img offset.toNat size.toNat) :
+    segReadSt st (secOff tr offset) size =
+      ({ st.clear with pos := (secOff tr offset).toNat + size.toNat, gcount := size.toNat },
+       slice img offset.toNat size.toNat) ∧
+    (secOff tr offset).toNat + size.toNat ≤ st.data.length := by
+  obtain ⟨h0, h1, h2, h3⟩ := hrep
+  have hto := secOff_toNat tr offset (by omega) h0 (by omega)
+  rw [segReadSt_inside st (secOff tr offset) size (by rw [hto]; exact h1) h63c, hto, h3]
+  exact ⟨rfl, h1⟩
+
+theorem segLoadData_rep (c : Cls) (tr : List Trans) (img : Bytes) (ls : LoadSt) (g : Seg)
+    (hss : g.streamSize = ssOf tr ls.st.data.length)
+    (h63c : ls.st.data.length < 9223372036854775808) (h63i : img.length < 9223372036854775808)
+    (hs : segSkip g = false) (hin : RangeRep ls.st.data tr img g.offset.toNat g.filesz.toNat) :
+    (segLoadData c tr ls g).2 =
+      ({ g with data := some (slice img g.offset.toNat g.filesz.toNat ++ [0]), isLoaded := true }, true) ∧
+    (segLoadData c tr ls g).1.st.eof = ls.st.eof ∧ (segLoadData c tr ls g).1.st.fail = ls.st.fail := by
+  obtain ⟨hrd, hle⟩ := segReadSt_rep tr ls.st img g.offset g.filesz h63c h63i hin
+  have gd := guards_rep tr ls.st.data.length (secOff tr g.offset) g.filesz h63c hle
+  have hs' : seg32_load_data_skip g.stype g.filesz = false := hs
+  unfold segSkip at hs
+  rw [segLoadData_eq]
+  simp only [hss, hs, hs', seg32_load_data_off_gt, seg64_load_data_off_gt, seg32_load_data_size_gt,
+    seg64_load_data_size_gt, seg32_load_data_sizet, seg64_load_data_sizet, gd.1, gd.2.1, gd.2.2, hrd]
+  cases c <;> simp [mergeFlags, IStream.clear]
+
+/-- **`segment_impl::load` through a translation table** -/
+theorem segLoad_rep (c : Cls) (enc : Enc) (tr : List Trans) (img : Bytes) (ls : LoadSt) (k : Nat) (isLazy : Bool)
+    (he : ls.st.eof = false) (hf : ls.st.fail = false)
+    (h63c : ls.st.data.length < 9223372036854775808) (h63i : img.length < 9223372036854775808)
+    (hk : RangeRep ls.st.data tr img k (phdrSize c))
+    (hin : SegRep ls.st.data tr img (segHdr c enc img k isLazy)) :
+    (segLoad c enc tr ls (Int.ofNat k) isLazy).2 =
+      ({ segHdrT c enc tr ls.st.data.length img k isLazy with
+           data := if isLazy then none else segData img (segHdr c enc img k isLazy),
+           isLoaded := !isLazy && !segSkip (segHdr c enc img k isLazy) }, true) ∧
+    (segLoad c enc tr ls (Int.ofNat k) isLazy).1.st.eof = false ∧
+    (segLoad c enc tr ls (Int.ofNat k) isLazy).1.st.fail = false ∧
+    (segLoad c enc tr ls (Int.ofNat k) isLazy).1.st.data = ls.st.data ∧
+    (segLoad c enc tr ls (Int.ofNat k) isLazy).1.st.kind = ls.st.kind := by
+  rw [segLoad_eq, hdrRead_rep tr ls.st he hf img k (phdrSize c) hk]
+  simp only []
+  rw [wr_full _ _ (by simp [slice_length_of_le hk.2.2.1]), decodePhdr_T]
+  have hd0 : (segHdrT c enc tr ls.st.data.length img k isLazy).data = none := by simp [segHdrT, segHdr, segInit]
+  have hl0 : (segHdrT c enc tr ls.st.data.length img k isLazy).isLoaded = false := by simp [segHdrT, segHdr, segInit]
+  cases isLazy
+  · simp only [Bool.false_eq_true, if_false, Bool.not_false, Bool.true_and]
+    cases hs : segSkip (segHdr c enc img k false)
+    · have h := segLoadData_rep c tr img
+        { ls with st := { ls.st with pos := (trApply tr (Int.ofNat k)).toNat + phdrSize c, gcount := phdrSize c } }
+        (segHdrT c enc tr ls.st.data.length img k false) (by simp [segHdrT]) h63c h63i hs (hin hs)
+      refine ⟨?_, ?_, ?_, by simp, by simp⟩
+      · rw [h.1]; simp [segData, hs, segHdrT]
+      · rw [h.2.1]; exact he
+      · rw [h.2.2]; exact hf
+    · have hs2 : segSkip (segHdrT c enc tr ls.st.data.length img k false) = true := hs
+      rw [segLoadData_skip c tr _ _ hs2]
+      refine ⟨?_, by simp [he, hf]⟩
+      simp only [segData, hs, if_true, Bool.not_true]
+      congr 1
+      cases hg : segHdrT c enc tr ls.st.data.length img k false
+      rw [hg] at hd0 hl0
+      simp_all
+  · simp only [if_true, Bool.not_true, Bool.false_and]
+    refine ⟨?_, by simp [he, hf]⟩
+    congr 1
+    cases hg : segHdrT c enc tr ls.st.data.length img k true
+    rw [hg] at hd0 hl0
+    simp_all
+
+/-- segment `idx` as loaded through the table, given the loaded sections -/
+def segFinalT (c : Cls) (enc : Enc) (tr : List Trans) (clen : Nat) (img : Bytes) (k : Nat) (isLazy : Bool)
+    (idx : Nat) (secs : List SecBuf) : Seg :=
+  { segFinal c enc img k isLazy idx secs with streamSize := ssOf tr clen }
+
+theorem memberOf_T (g : Seg) (d : Option Bytes) (l : Bool) (ss : BitVec 64) :
+    memberOf { g with data := d, isLoaded := l, streamSize := ss } = memberOf g := by
+  funext b; rfl
+
+theorem loadSegmentsLoop_rep (c : Cls) (enc : Enc) (tr : List Trans) (isLazy : Bool) (phoff entsize : Nat)
+    (cont img : Bytes) (h63c : cont.length < 9223372036854775808) (h63i : img.length < 9223372036854775808)
+    (secs : List SecBuf) :
+    ∀ (n i : Nat) (ls : LoadSt) (acc : List Seg),
+      ls.st.data = cont → ls.st.eof = false → ls.st.fail = false →
+      (∀ j, i ≤ j → j < i + n → RangeRep cont tr img (phoff + j * entsize) (phdrSize c) ∧
+        SegRep cont tr img (segHdr c enc img (phoff + j * entsize) isLazy)) →
+      let r := loadSegmentsLoop c enc tr isLazy (Int.ofNat phoff) entsize secs n i ls acc
+      r.1.st.data = cont ∧ r.1.st.eof = false ∧ r.1.st.fail = false ∧ r.1.st.kind = ls.st.kind ∧
+      r.2.2 = true ∧
+      ∃ l : List Seg, r.2.1 = acc.reverse ++ l ∧ l.length = n ∧
+        ∀ j (h : j < l.length),
+          l[j] = segFinalT c enc tr cont.length img (phoff + (i + j) * entsize) isLazy (i + j) secs := by
+  intro n
+  induction n with
+  | zero =>
+    intro i ls acc hd he hf _
+    exact ⟨hd, he, hf, rfl, rfl, [], by simp [loadSegmentsLoop], rfl, fun j h => absurd h (by simp)⟩
+  | succ n ih =>
+    intro i ls acc hd he hf hall
+    have hi := hall i (Nat.le_refl _) (by omega)
+    subst hd
+    have h1 := segLoad_rep c enc tr img ls (phoff + i * entsize) isLazy he hf h63c h63i hi.1 hi.2
+    simp only [loadSegmentsLoop, ofNat_add_mul]
+    generalize segLoad c enc tr ls (Int.ofNat (phoff + i * entsize)) isLazy = x at h1
+    obtain ⟨ls', g', ok⟩ := x
+    obtain ⟨hs, he', hf', hd', hk'⟩ := h1
+    simp only [Prod.mk.injEq] at hs
+    obtain ⟨hg, hok⟩ := hs
+    simp only at he' hf' hd' hk'
+    subst hok
+    simp only [hf', Bool.not_true, Bool.or_self, Bool.false_eq_true, if_false]
+    have h2 := ih (i + 1) ls'
+      ({ g' with index := i, secs := (secs.filter (memberOf g')).map (fun b => BitVec.ofNat 16 b.index) } :: acc)
+      hd' he' hf' (fun j h1 h2 => hall j (by omega) (by omega))
+    obtain ⟨g1, g2, g3, g4, g5, l, g6, g7, g8⟩ := h2
+    refine ⟨g1, g2, g3, by rw [g4, hk'], g5,
+      { g' with index := i, secs := (secs.filter (memberOf g')).map (fun b => BitVec.ofNat 16 b.index) } :: l,
+      ?_, by simp [g7], ?_⟩
+    · rw [g6]; simp
+    · intro j h
+      cases j with
+      | zero =>
+        simp only [List.getElem_cons_zero, Nat.add_zero]
+        rw [hg]
+        have hm : memberOf ({ segHdrT c enc tr ls.st.data.length img (phoff + i * entsize) isLazy with
+            data := if isLazy then none else segData img (segHdr c enc img (phoff + i * entsize) isLazy),
+            isLoaded := !isLazy && !segSkip (segHdr c enc img (phoff + i * entsize) isLazy) } : Seg) =
+            memberOf (segHdr c enc img (phoff + i * entsize) isLazy) := by
+          funext b; rfl
+        rw [hm]
+        rfl
+      | succ j =>
+        have := g8 j (by simpa using h)
+        simpa [Nat.add_assoc, Nat.add_comm 1 j] using this
+
+theorem segGetData_segFinalT (c : Cls) (enc : Enc) (tr : List Trans) (cont img : Bytes) (k : Nat) (isLazy : Bool)
+    (idx : Nat) (secs : List SecBuf) (ls : LoadSt) (hd : ls.st.data = cont)
+    (h63c : cont.length < 9223372036854775808) (h63i : img.length < 9223372036854775808)
+    (hin : SegRep cont tr img (segHdr c enc img k isLazy)) :
+    (segGetData c tr ls (segFinalT c enc tr cont.length img k isLazy idx secs)).2.data =
+      segData img (segHdr c enc img k isLazy) ∧
+    (segGetData c tr ls (segFinalT c enc tr cont.length img k isLazy idx secs)).1.st.eof = ls.st.eof ∧
+    (segGetData c tr ls (segFinalT c enc tr cont.length img k isLazy idx secs)).1.st.fail = ls.st.fail := by
+  subst hd
+  rw [segGetData_eq]
+  cases hs : segSkip (segHdr c enc img k isLazy)
+  · cases isLazy
+    · simp [segFinalT, segFinal, hs, segData]
+    · simp only [segFinalT, segFinal, hs, Bool.not_true, Bool.false_and, Bool.not_false, if_true]
+      have h := segLoadData_rep c tr img ls
+        { segHdr c enc img k true with
+            index := idx,
+            secs := (secs.filter (memberOf (segHdr c enc img k true))).map (fun b => BitVec.ofNat 16 b.index),
+            data := none, isLoaded := false, streamSize := ssOf tr ls.st.data.length }
+        rfl h63c h63i hs (hin hs)
+      rw [h.1, h.2.1, h.2.2]
+      simp [segData, hs]
+  · have hs2 : segSkip (segFinalT c enc tr ls.st.data.length img k isLazy idx secs) = true := hs
+    have hdn : (segFinalT c enc tr ls.st.data.length img k isLazy idx secs).data = none := by
+      cases isLazy <;> simp [segFinalT, segFinal, segData, hs]
+    split
+    · rw [segLoadData_skip c tr ls _ hs2]
+      simp [segData, hs, hdn]
+    · simp [segData, hs, hdn]
+
+/-! ### gate, rungs and assembly through a translation table -/
+
+theorem load_gate_rep (o : Obj) (st : IStream) (isLazy : Bool) (c : Cls) (enc : Enc) (img : Bytes)
+    (he : st.eof = false) (hf : st.fail = false)
+    (hm0 : (img.getD 0 0).toNat = ELFMAG0) (hm1 : (img.getD 1 0).toNat = ELFMAG1)
+    (hm2 : (img.getD 2 0).toNat = ELFMAG2) (hm3 : (img.getD 3 0).toNat = ELFMAG3)
+    (hc : clsOfByte (img.getD EI_CLASS 0).toNat = some c)
+    (henc : encOfByte (img.getD EI_DATA 0).toNat = some enc)
+    (hrep : RangeRep st.data o.trans img 0 (ehdrSize c)) :
+    load o st isLazy =
+      loadBody { o with secs := [], segs := [], cls := c, enc := enc, hdr := some (slice img 0 (ehdrSize c)) }
+        c enc (slice img 0 (ehdrSize c))
+        { st with pos := (trApply o.trans 0).toNat + ehdrSize c, gcount := ehdrSize c } isLazy := by
+  have h16 := sixteen_le_ehdr c
+  have hrep16 := hrep.prefix 16 h16
+  obtain ⟨p0, p1, p2, p3⟩ := hrep
+  obtain ⟨q0, q1, q2, q3⟩ := hrep16
+  have e0 : (Int.ofNat 0) = (0 : Int) := rfl
+  rw [e0] at p0 p1 p3 q0 q1 q3
+  rw [load_eq]
+  simp only []
+  rw [IStream.seekg_ok st hf _ p0 (by omega),
+    IStream.read_ok { st with pos := (trApply o.trans 0).toNat, eof := false } rfl hf 16 q1]
+  simp only [bne_self_eq_false, Bool.false_eq_true, if_false, q3]
+  rw [getD_slice0 _ 16 0 (by decide), getD_slice0 _ 16 1 (by decide), getD_slice0 _ 16 2 (by decide),
+    getD_slice0 _ 16 3 (by decide), getD_slice0 _ 16 EI_CLASS (by decide), getD_slice0 _ 16 EI_DATA (by decide)]
+  simp only [hm0, hm1, hm2, hm3, hc, henc, bne_self_eq_false, Bool.or_self, Bool.false_eq_true, if_false]
+  rw [IStream.seekg_ok { st with pos := (trApply o.trans 0).toNat + 16, eof := false, gcount := 16 } hf _ p0
+      (by simp; omega),
+    IStream.read_ok { st with pos := (trApply o.trans 0).toNat, eof := false, gcount := 16 } rfl hf (ehdrSize c)
+      (by simpa using p1)]
+  simp only [bne_self_eq_false, Bool.false_eq_true, if_false, p3]
+  rw [wr_over _ _ (by rw [Hdr.create_length, slice_length_of_le (by omega)]; exact Nat.le_refl _)]
+  congr 1
+  cases st; simp_all
+
+theorem loadSections_rep (c : Cls) (enc : Enc) (tr : List Trans) (isLazy : Bool) (hdr : Bytes) (st : IStream)
+    (cont img : Bytes) (hd : st.data = cont) (he : st.eof = false) (hf : st.fail = false)
+    (h63c : cont.length < 9223372036854775808) (h63i : img.length < 9223372036854775808)
+    (hbad : load_sections_entsize_bad (Hdr.e_shnum c enc hdr) (Hdr.ident hdr EI_CLASS) (Hdr.e_shentsize c enc hdr) = false)
+    (hall : ∀ j, j < (Hdr.e_shnum c enc hdr).toNat →
+      RangeRep cont tr img ((Hdr.e_shoff c enc hdr).toNat + j * (Hdr.e_shentsize c enc hdr).toNat) (shdrSize c) ∧
+      SecRep cont tr img (secHdr c enc img
+        ((Hdr.e_shoff c enc hdr).toNat + j * (Hdr.e_shentsize c enc hdr).toNat) isLazy j)) :
+    (loadSections c enc tr isLazy hdr st).1.st.data = cont ∧
+    (loadSections c enc tr isLazy hdr st).1.st.eof = false ∧
+    (loadSections c enc tr isLazy hdr st).1.st.fail = false ∧
+    (loadSections c enc tr isLazy hdr st).1.st.kind = st.kind ∧
+    (loadSections c enc tr isLazy hdr st).2.length = (Hdr.e_shnum c enc hdr).toNat ∧
+    ∀ j (h : j < (loadSections c enc tr isLazy hdr st).2.length),
+      SecStT c enc tr cont.length img ((Hdr.e_shoff c enc hdr).toNat + j * (Hdr.e_shentsize c enc hdr).toNat)
+        isLazy j (!isLazy) [] (loadSections c enc tr isLazy hdr st).2[j] := by
+  unfold loadSections
+  simp only [hbad, Bool.false_eq_true, if_false]
+  by_cases hn : (Hdr.e_shnum c enc hdr).toNat = 0
+  · rw [hn]
+    simp only [loadSectionsLoop, List.reverse_nil, List.length_nil]
+    exact ⟨hd, he, hf, by simp, by simp, fun j h => absurd h (by simp)⟩
+  · have h0 := (hall 0 (by omega)).1.2.2.1
+    have hlt : (Hdr.e_shoff c enc hdr).toNat < 9223372036854775808 := by omega
+    rw [toInt_of_lt _ hlt]
+    have h := loadSectionsLoop_rep c enc tr isLazy (Hdr.e_shoff c enc hdr).toNat (Hdr.e_shentsize c enc hdr).toNat
+      cont img h63c h63i (Hdr.e_shnum c enc hdr).toNat 0 { st := st } [] hd he hf
+      (fun j _ hj => hall j (by omega))
+    obtain ⟨g1, g2, g3, g4, l, g5, g6, g7⟩ := h
+    simp only [List.reverse_nil, List.nil_append] at g5
+    refine ⟨g1, g2, g3, g4, by rw [g5, g6], ?_⟩
+    intro j hj
+    have := g7 j (by rw [g5] at hj; exact hj)
+    simp only [Nat.zero_add] at this
+    simp only [g5]
+    exact this
+
+theorem loadSegs_rep (o : Obj) (c : Cls) (enc : Enc) (isLazy : Bool) (hdr : Bytes) (cont img : Bytes) (ls : LoadSt)
+    (secs : List SecBuf)
+    (hd : ls.st.data = cont) (he : ls.st.eof = false) (hf : ls.st.fail = false)
+    (h63c : cont.length < 9223372036854775808) (h63i : img.length < 9223372036854775808)
+    (hbad : load_segments_entsize_bad (Hdr.e_phnum c enc hdr) (Hdr.ident hdr EI_CLASS) (Hdr.e_phentsize c enc hdr) = false)
+    (hall : ∀ j, j < (Hdr.e_phnum c enc hdr).toNat →
+      RangeRep cont o.trans img ((Hdr.e_phoff c enc hdr).toNat + j * (Hdr.e_phentsize c enc hdr).toNat) (phdrSize c) ∧
+      SegRep cont o.trans img (segHdr c enc img
+        ((Hdr.e_phoff c enc hdr).toNat + j * (Hdr.e_phentsize c enc hdr).toNat) isLazy)) :
+    (loadSegs o c enc hdr isLazy ls secs).ok = true ∧
+    (loadSegs o c enc hdr isLazy ls secs).obj.secs = secs ∧
+    (loadSegs o c enc hdr isLazy ls secs).obj.cls = o.cls ∧
+    (loadSegs o c enc hdr isLazy ls secs).obj.enc = o.enc ∧
+    (loadSegs o c enc hdr isLazy ls secs).obj.hdr = o.hdr ∧
+    (loadSegs o c enc hdr isLazy ls secs).obj.trans = o.trans ∧
+    (loadSegs o c enc hdr isLazy ls secs).obj.stream.data = cont ∧
+    (loadSegs o c enc hdr isLazy ls secs).obj.stream.eof = false ∧
+    (loadSegs o c enc hdr isLazy ls secs).obj.stream.fail = false ∧
+    (loadSegs o c enc hdr isLazy ls secs).obj.stream.kind = ls.st.kind ∧
+    (loadSegs o c enc hdr isLazy ls secs).obj.segs.length = (Hdr.e_phnum c enc hdr).toNat ∧
+    ∀ j (h : j < (loadSegs o c enc hdr isLazy ls secs).obj.segs.length),
+      (loadSegs o c enc hdr isLazy ls secs).obj.segs[j] =
+        segFinalT c enc o.trans cont.length img
+          ((Hdr.e_phoff c enc hdr).toNat + j * (Hdr.e_phentsize c enc hdr).toNat) isLazy j secs := by
+  unfold loadSegs
+  simp only [hbad, Bool.false_eq_true, if_false]
+  by_cases hn : (Hdr.e_phnum c enc hdr).toNat = 0
+  · rw [hn]
+    simp only [loadSegmentsLoop, List.reverse_nil, List.length_nil]
+    refine ⟨?_, ?_, ?_, ?_, ?_, ?_, ?_, ?_, ?_, ?_, ?_, fun j h => absurd h (by simp)⟩ <;>
+      first | trivial | rfl | exact hd | exact he | exact hf | simp
+  · have h0 := (hall 0 (by omega)).1.2.2.1
+    have hlt : (Hdr.e_phoff c enc hdr).toNat < 9223372036854775808 := by omega
+    rw [toInt_of_lt _ hlt]
+    have h := loadSegmentsLoop_rep c enc o.trans isLazy (Hdr.e_phoff c enc hdr).toNat
+      (Hdr.e_phentsize c enc hdr).toNat cont img h63c h63i secs (Hdr.e_phnum c enc hdr).toNat 0 ls [] hd he hf
+      (fun j _ hj => hall j (by omega))
+    obtain ⟨g1, g2, g3, g4, g5, l, g6, g7, g8⟩ := h
+    simp only [List.reverse_nil, List.nil_append] at g6
+    refine ⟨?_, ?_, ?_, ?_, ?_, ?_, ?_, ?_, ?_, ?_, ?_, ?_⟩
+    any_goals first | trivial | rfl | exact g5 | exact g1 | exact g2 | exact g3 | exact g4 | (simp only [g6, g7]; done)
+    intro j hj
+    have := g8 j (by simp only [g6] at hj; exact hj)
+    simp only [Nat.zero_add] at this
+    simp only [g6]
+    exact this
+
+/-- everything after the gate, through a translation table -/
+theorem loadBody_rep (o : Obj) (c : Cls) (enc : Enc) (isLazy : Bool) (hdr : Bytes) (cont img : Bytes) (st : IStream)
+    (hd : st.data = cont) (he : st.eof = false) (hf : st.fail = false)
+    (h63c : cont.length < 9223372036854775808) (h63i : img.length < 9223372036854775808)
+    (hbadS : load_sections_entsize_bad (Hdr.e_shnum c enc hdr) (Hdr.ident hdr EI_CLASS) (Hdr.e_shentsize c enc hdr) = false)
+    (hbadP : load_segments_entsize_bad (Hdr.e_phnum c enc hdr) (Hdr.ident hdr EI_CLASS) (Hdr.e_phentsize c enc hdr) = false)
+    (hallS : ∀ j, j < (Hdr.e_shnum c enc hdr).toNat →
+      RangeRep cont o.trans img ((Hdr.e_shoff c enc hdr).toNat + j * (Hdr.e_shentsize c enc hdr).toNat) (shdrSize c) ∧
+      SecRep cont o.trans img (secHdr c enc img
+        ((Hdr.e_shoff c enc hdr).toNat + j * (Hdr.e_shentsize c enc hdr).toNat) isLazy j))
+    (hallP : ∀ j, j < (Hdr.e_phnum c enc hdr).toNat →
+      RangeRep cont o.trans img ((Hdr.e_phoff c enc hdr).toNat + j * (Hdr.e_phentsize c enc hdr).toNat) (phdrSize c) ∧
+      SegRep cont o.trans img (segHdr c enc img
+        ((Hdr.e_phoff c enc hdr).toNat + j * (Hdr.e_phentsize c enc hdr).toNat) isLazy))
+    (hndx : (Hdr.e_shstrndx c enc hdr).toNat = 0 ∨
+      (Hdr.e_shstrndx c enc hdr).toNat < (Hdr.e_shnum c enc hdr).toNat) :
+    ∃ r : LoadRes, loadBody o c enc hdr st isLazy = .ok r ∧ r.ok = true ∧
+      r.obj.cls = o.cls ∧ r.obj.enc = o.enc ∧ r.obj.hdr = o.hdr ∧ r.obj.trans = o.trans ∧
+      r.obj.stream.data = cont ∧ r.obj.stream.eof = false ∧ r.obj.stream.fail = false ∧
+      r.obj.stream.kind = st.kind ∧
+      r.obj.secs.length = (Hdr.e_shnum c enc hdr).toNat ∧
+      (∀ j (h : j < r.obj.secs.length), ∃ res : Bool,
+        SecStT c enc o.trans cont.length img
+          ((Hdr.e_shoff c enc hdr).toNat + j * (Hdr.e_shentsize c enc hdr).toNat) isLazy j res
+          (nameOf (strtabOf c enc img (Hdr.e_shoff c enc hdr).toNat (Hdr.e_shentsize c enc hdr).toNat isLazy
+                    (Hdr.e_shstrndx c enc hdr).toNat)
+            (secHdr c enc img ((Hdr.e_shoff c enc hdr).toNat + j * (Hdr.e_shentsize c enc hdr).toNat)
+              isLazy j).nameOff.toNat) r.obj.secs[j] ∧
+        (isLazy = false → res = true)) ∧
+      r.obj.segs.length = (Hdr.e_phnum c enc hdr).toNat ∧
+      ∀ j (h : j < r.obj.segs.length),
+        r.obj.segs[j] =
+          segFinalT c enc o.trans cont.length img
+            ((Hdr.e_phoff c enc hdr).toNat + j * (Hdr.e_phentsize c enc hdr).toNat) isLazy j r.obj.secs := by
+  have hS := loadSections_rep c enc o.trans isLazy hdr st cont img hd he hf h63c h63i hbadS hallS
+  obtain ⟨s1, s2, s3, s4, s5, s6⟩ := hS
+  have hN := loadNames_rep c enc o.trans isLazy hdr cont img (loadSections c enc o.trans isLazy hdr st).1
+    (loadSections c enc o.trans isLazy hdr st).2 (Hdr.e_shoff c enc hdr).toNat (Hdr.e_shentsize c enc hdr).toNat
+    s1 h63c h63i hbadS (by rw [s5]; exact hndx) (fun j hj => (hallS j (by rw [s5] at hj; exact hj)).2) s6
+  obtain ⟨ls', secs', n1, n2, n3, n4, n5, n6, n7⟩ := hN
+  have hG := loadSegs_rep o c enc isLazy hdr cont img ls' secs' n2 (by rw [n3]; exact s2) (by rw [n4]; exact s3)
+    h63c h63i hbadP hallP
+  obtain ⟨p1, p2, p3, p4, p5, p6, p7, p8, p9, p10, p11, p12⟩ := hG
+  refine ⟨loadSegs o c enc hdr isLazy ls' secs', ?_, p1, p3, p4, p5, p6, p7, p8, p9, by rw [p10, n5, s4], ?_, ?_,
+    p11, ?_⟩
+  · unfold loadBody
+    rw [n1]
+    rfl
+  · rw [p2, n6, s5]
+  · intro j h
+    simp only [p2] at h ⊢
+    exact n7 j h
+  · intro j h
+    rw [p12 j h, p2]
+
 end ElfioVerif
